@@ -106,6 +106,7 @@ func ParseStreamCallback
   let cc := c.CommentChar
   // the parse ends with the answer of the callback that stopped it, or of the last record
   ensures @stopped-result [C09] cbLen > old(cbLen) && cbStop[cbLen - 1] ==> result == cbRet[cbLen - 1]
+  ensures @grows cbLen >= old(cbLen)
   // C10: success without an early stop means the input was read to its end
   ensures @scanner-err [C10] result == nil && !(cbLen > old(cbLen) && cbStop[cbLen - 1]) ==> !RdFailed(rd)
   // C09 soundness: every error event names a malformed line, with its 1-based number and its text
@@ -201,6 +202,65 @@ func ParseStreamCallback variant lint
   }
   ghost before dyncall 2 { set prOf := store(prOf, cbLen, prLen); set evOfPr := store(evOfPr, prLen, cbLen) }
   ghost before dyncall 3 { set prOf := store(prOf, cbLen, prLen); set evOfPr := store(evOfPr, prLen, cbLen) }
+
+// ---------------------------------------------------------------------------------------------
+// Channel parser (C18, producer side). Every channel send appends (channel, value) to the ghost send trace
+// sendLen/sendChan/sendVal (value = the record's reference, the error's payload, or 0 for Done).
+// ---------------------------------------------------------------------------------------------
+ghost sendLen  int
+ghost sendChan seq[int]
+ghost sendVal  seq[int]
+
+// the callback of ParseStream: a record is sent on Nodes; an error stops the parse and is handed back
+// (it is sent once, by ParseStream itself)
+func (Parser).ParseStream$1
+  props C18 C08
+  refines parser.StopOnErr
+  modifies ghost(sendLen, sendChan, sendVal)
+  ensures @send-record err == nil ==> sendLen == old(sendLen) + 1 && sendChan == store(old(sendChan), old(sendLen), p.Nodes) && sendVal == store(old(sendVal), old(sendLen), ref(n))
+  ensures @no-send-on-error err != nil ==> sendLen == old(sendLen) && sendChan == old(sendChan) && sendVal == old(sendVal)
+
+func ParseStreamCallback variant chan
+  bind callback = (parser.Parser).ParseStream$1
+  props C18 C08
+  modifies ghost(cbLen, cbErr, cbNode, cbStop, cbRet, cbLineNo, cbLine, cbHeader, cbElems, cbNElems, scRd, scPos, privLo, evOf, sendLen, sendChan, sendVal)
+  let nodes := captured(callback, p).Nodes
+  // one send per record event, in order; nothing is sent for an error event
+  ensures @sends [C18] forall k int :: {sendChan[k]} old(sendLen) <= k && k < sendLen ==> sendChan[k] == nodes && sendVal[k] == cbNode[old(cbLen) + (k - old(sendLen))] && cbErr[old(cbLen) + (k - old(sendLen))] == nil
+  ensures @count [C18] sendLen - old(sendLen) == (if cbLen > old(cbLen) && cbErr[cbLen - 1] != nil then cbLen - old(cbLen) - 1 else cbLen - old(cbLen))
+  ensures @errors-last [C18] forall j int :: {cbErr[j]} old(cbLen) <= j && j < cbLen && cbErr[j] != nil ==> j == cbLen - 1 && result == cbErr[j]
+  ensures @fails [C18] result == nil ==> (forall j int :: {cbErr[j]} old(cbLen) <= j && j < cbLen ==> cbErr[j] == nil) && !RdFailed(rd)
+  ensures @old-sends [C18] forall k int :: {sendChan[k]} 0 <= k && k < old(sendLen) ==> sendChan[k] == old(sendChan[k]) && sendVal[k] == old(sendVal[k])
+  ensures @p captured(callback, p) == old(captured(callback, p))
+  loop 1 {
+    invariant @p captured(callback, p) == old(captured(callback, p))
+    invariant @noerr forall j int :: {cbErr[j]} old(cbLen) <= j && j < cbLen ==> cbErr[j] == nil
+    invariant @count sendLen - old(sendLen) == cbLen - old(cbLen)
+    invariant @sends forall k int :: {sendChan[k]} old(sendLen) <= k && k < sendLen ==> sendChan[k] == nodes && sendVal[k] == cbNode[old(cbLen) + (k - old(sendLen))] && cbErr[old(cbLen) + (k - old(sendLen))] == nil
+    invariant @old-sends forall k int :: {sendChan[k]} 0 <= k && k < old(sendLen) ==> sendChan[k] == old(sendChan[k]) && sendVal[k] == old(sendVal[k])
+    invariant @own node != nil ==> arr(node.Elements) >= privLo && (node.Metadata != nil ==> ref(node.Metadata) >= privLo && arr(*node.Metadata) >= privLo)
+  }
+
+// ParseStream: the sends are exactly: one Nodes send per record before the first error, then that error once
+// on Errors (if any), then Done.
+func (Parser).ParseStream
+  props C18 C08
+  requires @distinct-channels p.Nodes != p.Errors && p.Nodes != p.Done && p.Errors != p.Done
+  calluse ParseStreamCallback#1 chan
+  modifies ghost(cbLen, cbErr, cbNode, cbStop, cbRet, cbLineNo, cbLine, cbHeader, cbElems, cbNElems, scRd, scPos, privLo, evOf, sendLen, sendChan, sendVal)
+  ensures @records-in-order [C18] forall k int :: {sendChan[k]} old(sendLen) <= k && k < old(sendLen) + (if cbLen > old(cbLen) && cbErr[cbLen - 1] != nil then cbLen - old(cbLen) - 1 else cbLen - old(cbLen)) ==> sendChan[k] == p.Nodes && sendVal[k] == cbNode[old(cbLen) + (k - old(sendLen))] && cbErr[old(cbLen) + (k - old(sendLen))] == nil
+  ensures @then-error-then-done [C18] (sendLen == old(sendLen) + (if cbLen > old(cbLen) && cbErr[cbLen - 1] != nil then cbLen - old(cbLen) - 1 else cbLen - old(cbLen)) + 1) || (sendLen == old(sendLen) + (if cbLen > old(cbLen) && cbErr[cbLen - 1] != nil then cbLen - old(cbLen) - 1 else cbLen - old(cbLen)) + 2 && sendChan[sendLen - 2] == p.Errors)
+  ensures @done-last [C18] sendLen >= old(sendLen) + 1 && sendChan[sendLen - 1] == p.Done
+  ensures @error-once [C18] (forall k int :: {sendChan[k]} old(sendLen) <= k && k < sendLen - 2 ==> sendChan[k] == p.Nodes) && (sendLen - old(sendLen) >= 2 ==> sendChan[sendLen - 2] == p.Nodes || sendChan[sendLen - 2] == p.Errors)
+  ensures @errors-at-most-once [C18] forall k1, k2 int :: {sendChan[k1], sendChan[k2]} old(sendLen) <= k1 && k1 < k2 && k2 < sendLen && sendChan[k1] == p.Errors ==> sendChan[k2] != p.Errors
+
+// ParseFile: a file that cannot be opened yields exactly one send, the IO error on Errors; otherwise as ParseStream
+func (Parser).ParseFile
+  props C18 C08 C10
+  requires @distinct-channels p.Nodes != p.Errors && p.Nodes != p.Done && p.Errors != p.Done
+  modifies ghost(cbLen, cbErr, cbNode, cbStop, cbRet, cbLineNo, cbLine, cbHeader, cbElems, cbNElems, scRd, scPos, privLo, evOf, sendLen, sendChan, sendVal)
+  ensures @sends-something [C18] sendLen >= old(sendLen) + 1
+  ensures @ends-with-done-or-error [C18] sendChan[sendLen - 1] == p.Done || (sendLen == old(sendLen) + 1 && sendChan[sendLen - 1] == p.Errors)
 
 // ParseFileCallback: an unreadable file is an error; otherwise as ParseStreamCallback
 func ParseFileCallback
